@@ -124,7 +124,9 @@ def candidates(node, d, rng, logical_safe=True):
             out.append(("wrong_hint", c))
     elif k == "union":
         out += [("wrong_hint", ("no_such_branch", d[1] if type(d) is tuple and len(d) == 2 else d)),
-                ("wrong_type", object)]
+                ("wrong_type", object),
+                # tuples that are not (name, value) pairs are plain sequences (A2)
+                ("odd_tuple", (1, 2, 3)), ("odd_tuple", ()), ("odd_tuple", ("only",))]
         names = [hint_name(b) for b in node.branches]
         if len(names) > 1:
             inner = d[1] if type(d) is tuple and len(d) == 2 else d
